@@ -324,6 +324,11 @@ def beam_case(rng, tier):
     s = pipelines.struct_surface("wing", mesh, sym, fem_origin=float(rng.uniform(0.2, 0.6)))
     w = s["fem_origin"]
     nodes = (1 - w) * mesh[0] + w * mesh[-1]
+    if rng.uniform() < 0.3:
+        # cranked, highly swept spar (elements up to ~72 deg of sweep, i.e. close to the reference axis of the element triad)
+        yy = np.abs(nodes[:, 1]); crank = float(rng.uniform(0.2, 0.7)) * max(float(yy.max()), 1e-9)
+        t1 = np.tan(np.radians(rng.uniform(55, 72))); t2 = np.tan(np.radians(rng.uniform(0, 30)))
+        nodes = nodes.copy(); nodes[:, 0] += np.where(yy < crank, t1 * yy, t1 * crank + t2 * (yy - crank))
     ne = ny - 1
     sec = dict(A=rng.uniform(2e-3, 5e-2, size=ne), Iy=rng.uniform(1e-5, 5e-4, size=ne), Iz=rng.uniform(1e-5, 5e-4, size=ne),
                J=rng.uniform(2e-5, 1e-3, size=ne))
